@@ -53,6 +53,17 @@ class EventSource:
         callbacks = self._definition.event_handlers.get(event_type, {})
 
         for uid, cb in callbacks.items():
+            owner = getattr(cb, "__self__", None)
+            device = getattr(self, "device", None)
+            if (
+                owner is not None
+                and device is not None
+                and owner is not device
+                and isinstance(owner, type(device))
+            ):
+                # handlers live on the definition shared by all instances of a driver
+                # class: the ones bound to another instance are not ours
+                continue
             if asyncio.iscoroutinefunction(cb):
                 asyncio.get_running_loop().create_task(cb(event))
             else:
